@@ -495,6 +495,11 @@ def c17(res, tier, seed, lib):
     for _ in range(3 if tier != "thorough" else 40):
         texts = ["hsl(%d,%.1f%%,%.1f%%)" % (rnd.randrange(360), rnd.uniform(0, 100), rnd.uniform(0, 100)) for _ in range(300)]
         cases.append((texts, rnd.choice(keys), rnd.random() < 0.3, False, True))
+    # long inputs on stdin: more than the 8 KiB a buffered reader holds at once, with line lengths that do not
+    # divide it (bare hex = 7 bytes a line, hsl() = varying): every line must still arrive whole
+    for ln, mk in [(1400, lambda: "%06x" % rnd.randrange(1 << 24)), (3000, lambda: "%06x" % rnd.randrange(1 << 24)),
+                   (1200, lambda: "hsl(%d,%d%%,%d%%)" % (rnd.randrange(360), rnd.randrange(101), rnd.randrange(101)))]:
+        cases.append(([mk() for _ in range(ln)], rnd.choice(keys), False, False, True))
     all_texts = sorted({t for c in cases for t in c[0]})
     info = dict(zip(all_texts, infos(all_texts)))
     # the keys are the documented quantities: 1000 x (brightness | luminance | LCh hue | LCh chroma), truncated -
@@ -1125,8 +1130,20 @@ def canon_cli(line):
     an error message is pinned by the properties only for the parse error ("Could not parse color '<text>'",
     which must name the text); every other pastel error is compared as "an error", whatever its words."""
     t = line.split(" ")
-    if len(t) == 5 and t[0] == "ok" and t[3] not in ("-", "color-parse"):
-        return " ".join(t[:3] + ["error", "-"])
+    if len(t) == 5 and t[0] == "ok":
+        # a printed negative zero ("-0", "-0.0%", "-0.0000") is compared as zero: which zero `f64::max/min` return
+        # for (-0.0, +0.0) is unspecified in Rust (it differs between debug and release builds of the same code), so
+        # the sign of a zero that went through `clamp` is not something the model can pin
+        try:
+            out = unhex(t[2])
+            out2 = re.sub(rb"(?<![0-9.eE])-(0(?:\.0+)?)(?![0-9.])", rb"\1", out)
+            if out2 != out:
+                t[2] = hexs(out2)
+        except Exception:
+            pass
+        if t[3] not in ("-", "color-parse"):
+            return " ".join(t[:3] + ["error", "-"])
+        return " ".join(t)
     return line
 
 
@@ -1379,7 +1396,8 @@ def c19(res, tier, seed, lib):
     bad = b"\xff\xfe"
     for sub in ["color", "format", "distinct", "paint", "list", "random", "sort-by", "mix", "gradient", "set", "lighten", "colorblind", "pick", "gray"]:
         for argv in [[sub, bad], [sub, "--nope", bad], [sub, "--force-color", bad], [sub, "-x", bad], [sub, bad, "--nope"], ["--nope", sub, bad],
-                     ["-m", bad, sub], [sub, "red", bad], [bad]]:
+                     ["-m", bad, sub], [sub, "red", bad], [bad], [sub, "--", bad], [sub, "--nope", "--", bad], [sub, "--", "--nope", bad],
+                     ["--nope", "--", sub, bad], [sub, "--nope=1", "--", "red", bad], [sub, "-x", "--", bad], ["--", sub, bad]]:
             rc, out, err = run_cli(argv, timeout=20)
             res.case(repr(argv))
             generic_oracle(res, argv, rc, out, err, allow_partial_line=True)
@@ -2148,6 +2166,32 @@ def c14(res, tier, seed, lib):
             res.check(lines.count(f.hsl) >= need, "distinct-includes-fixed", "cli:distinct", inp, "%s expected %d times in %s" % (f.hsl, need, lines))
         if fixed and lines:
             res.check(lines[0] == finf[0].hsl, "distinct-first-fixed-stays-first", "cli:distinct", inp, lines[0])
+    # every combination of the command's options for small counts, every colour fixed (so the run only
+    # rearranges): the n colours are delivered whatever is printed beside them (--verbose writes a distance
+    # table and progress to stderr, --print-minimal-distance a number to stdout)
+    palette = ["#102030", "#aabbcc", "red", "teal", "#fefefe", "hsl(120,40%,30%)", "black", "#0000fe", "gold"]
+    for n in range(2, 10):
+        for metric in ["CIE76", "CIEDE2000"]:
+            for flags in [[], ["-v"], ["--print-minimal-distance"], ["-v", "--print-minimal-distance"]]:
+                if tier != "thorough" and n > 5 and flags != ["-v"]:
+                    continue
+                argv = ["distinct", "-m", metric] + flags + [str(n)] + palette[:n]
+                try:
+                    rc, out, err = run_cli(argv, timeout=120)
+                except subprocess.TimeoutExpired:
+                    res.fail("terminates", "cli:distinct", repr(argv), "no exit within 120 s")
+                    continue
+                res.case(repr(argv))
+                generic_oracle(res, argv, rc, out, err)
+                lines = out.decode().split("\n")[:-1]
+                want = sorted(i.hsl for i in infos(palette[:n]))
+                got = sorted(l for l in lines if l.startswith("hsl"))
+                if "--print-minimal-distance" in flags:
+                    # documented: only the minimal distance is printed (a number on one line), no colours
+                    okd = rc == 0 and len(lines) == 1 and re.fullmatch(r"[0-9]+(\.[0-9]+)?", lines[0]) is not None
+                    res.check(okd, "distinct-prints-the-distance-only", "cli:distinct", repr(argv), "rc=%s lines=%s stderr=%r" % (rc, [l[:40] for l in lines[:4]], err[-160:]))
+                else:
+                    res.check(rc == 0 and got == want, "distinct-delivers-n-with-every-option", "cli:distinct", repr(argv), "rc=%s lines=%s stderr=%r" % (rc, lines[:4], err[-160:]))
     # farthest-first order under the metric named on the command line (every colour fixed: the
     # command only rearranges, deterministically)
     sets = [["gray", "white", "blue", "black"], ["#ff0000", "#00ff00", "#0000ff", "#ffff00", "#00ffff", "#ff00ff"],
